@@ -2,8 +2,10 @@
 and monitor: harness/exec_props.py (monitor family 4 of Exec/ExecTrace.v)."""
 from harness import exec_props as X
 
-BIAS = {}
-TINY = None
+BIAS = {"profiles": ["timeout", "hw", "faulty", "failing", "mixed"], "sub_ok_p": 0.75}
+TINY = {"cfgs": [{"throttle": 0, "attempts": 1, "dry": False}, {"throttle": 1, "attempts": 2, "dry": False}],
+        "depth_quick": 3, "depth_thorough": 4, "graphs_quick": 3, "enum": {"subs": True},
+        "limit_quick": 1500, "limit_thorough": 15000}
 
 
 def run(ck):
